@@ -542,6 +542,11 @@ def run(mon, spec):
         nrand = 300
     else:
         eras = [-1990, -900, 100, 900, 1580, 2000, 3000, 3990]
+        if FINDERS[fi][2] == "phase":
+            # the ends of the domain, where the series have least margin
+            # against the 0.06 degree: one year in every three of the first
+            # and last decade (the 8.85-year perigee cycle is covered)
+            eras = [-1999, -1996, -1993] + eras + [3985, 3988]
         ndays = 360.0
         years = [900, 1582, 2000] if fi in (0, 4, 6, 8) else [1500, 2024]
         nrand = 40
